@@ -101,6 +101,46 @@ pub struct CeremonyTrace {
     /// signed, so the signatures made over the one must not verify over the other
     #[serde(default)]
     pub typed_twin: Option<u8>,
+    /// a signing attempt the library (rightly) refuses — an RSA key loaded under a scheme it cannot sign with —
+    /// is made on the same thread right before the block is signed (bit 1) / before each verification (bit 0):
+    /// an error path of an unrelated call must leave nothing behind that the next call can see
+    #[serde(default)]
+    pub refused_sign: u8,
+}
+
+/// The refused call of `refused_sign`: a call the library (rightly) answers with an error, made on the thread
+/// that signs / verifies next. Variants: signing with a key loaded under a scheme it cannot sign with (through
+/// `Metablock::new` / through the builder), canonicalizing a document that holds a non-integer number deep
+/// inside, decoding a torn document. Returns whether the library did refuse.
+pub fn refused_signing_attempt(variant: u8) -> bool {
+    let text = r#"{"_type":"link","name":"unrelated","materials":{},"products":{"refused/attempt":{"sha256":"00"}},"byproducts":{},"command":[],"environment":{}}"#;
+    match variant % 4 {
+        2 => {
+            let v = json!({"_type": "link", "name": "unrelated", "products": {"a/b": {"sha256": "00"}}, "zz": [1, {"k": ["x", 1.5]}]});
+            Json::canonicalize(&v).is_err()
+        }
+        3 => {
+            let torn = &text.as_bytes()[..text.len() - 17];
+            let a = MetadataWrapper::try_from_bytes(torn).is_err();
+            let b = Json::from_slice::<Metablock>(torn).is_err();
+            a && b
+        }
+        v => {
+            let misfit = match PrivateKey::from_pkcs8(keys::rsa2048_pk8(), in_toto::crypto::SignatureScheme::EcdsaP256Sha256) {
+                Ok(k) => k,
+                Err(_) => return false,
+            };
+            let meta = match MetadataWrapper::try_from_bytes(text.as_bytes()) {
+                Ok(m) => m,
+                Err(_) => return false,
+            };
+            if v == 0 {
+                Metablock::new(meta, &[&misfit]).is_err()
+            } else {
+                MetablockBuilder::from_metadata(meta.into_trait()).sign(&[&misfit]).is_err()
+            }
+        }
+    }
 }
 
 /// The same key material declared with another scheme (None if the library refuses to build it).
@@ -242,6 +282,9 @@ pub fn prepare(t: &CeremonyTrace) -> Prepared {
         fired.push("TYPED-API".into());
     } else if t.raw_path.is_some() {
         fired.push("RAW-METADATA-PATH".into());
+    }
+    if t.refused_sign & 2 != 0 && refused_signing_attempt(t.refused_sign >> 2) {
+        fired.push("REFUSED-CALL-BEFORE-SIGNING".into());
     }
     let mb = match construct(&signed, &t.signers, &t.keys, t.builder_path, typed.clone(), t.raw_path) {
         Ok(m) => m,
@@ -456,10 +499,20 @@ pub fn finish(t: &CeremonyTrace, p: &Prepared) -> CeremonyOutcome {
         let threshold = t.threshold;
         let expect = parsed.metadata.clone();
         let hs = t.hash_seeds.get(rep).copied().unwrap_or(1);
-        let call = move || match p.verify(threshold, a.iter()) {
-            Ok(m) => Ok(m == expect),
-            Err(e) => Err(exec::err_class(&e)),
+        let refused = t.refused_sign & 1 != 0;
+        let refused_variant = (t.refused_sign >> 2).wrapping_add(rep as u8);
+        let call = move || {
+            if refused {
+                refused_signing_attempt(refused_variant);
+            }
+            match p.verify(threshold, a.iter()) {
+                Ok(m) => Ok(m == expect),
+                Err(e) => Err(exec::err_class(&e)),
+            }
         };
+        if refused && rep == 0 {
+            out.fired.push("REFUSED-CALL-BEFORE-VERIFY".into());
+        }
         let r = if t.same_thread { exec::in_same_thread(hs, call) } else { exec::in_fresh_thread(hs, call) };
         match r {
             Ok(x) => out.results.push(x),
@@ -861,6 +914,14 @@ fn base_trace(seed: u64, tier: Tier, mode: Mode) -> (CeremonyTrace, Rng) {
         canon_pair: None,
         canon_nest: None,
         typed_twin: None,
+        refused_sign: {
+            let mut rr = Rng::stream(seed, "refused");
+            if rr.chance(1, 6) {
+                (1 + rr.below(3) as u8) | ((rr.below(4) as u8) << 2)
+            } else {
+                0
+            }
+        },
     };
     (t, r)
 }
@@ -1595,6 +1656,18 @@ pub fn minimise(prop: &str, clause: &str, t: &CeremonyTrace, history: Option<&Ce
             let mut c = cur.clone();
             c.builder_path = false;
             cands.push(c);
+        }
+        if cur.refused_sign != 0 {
+            let mut c = cur.clone();
+            c.refused_sign = 0;
+            cands.push(c);
+            for bit in [1u8, 2] {
+                if cur.refused_sign & 3 == 3 {
+                    let mut c = cur.clone();
+                    c.refused_sign &= !bit;
+                    cands.push(c);
+                }
+            }
         }
         // simplify the body
         match &cur.body {
